@@ -367,7 +367,13 @@ func report(eng *Engine, prop, tier string, seed int, obs []*Obligation, fcs []*
 		}
 		if kf := isKnown(ob.Name); kf != nil {
 			knownHit = append(knownHit, ob.Name)
-			lines = append(lines, fmt.Sprintf("KNOWN-FINDING: property=%s %s %s", prop, ob.Name, kf.What))
+			// the line names the property the finding is listed under; a run of another property meets it
+			// only through the call closure and says so
+			via := ""
+			if kf.Property != prop {
+				via = fmt.Sprintf(" (met in the call closure of %s)", prop)
+			}
+			lines = append(lines, fmt.Sprintf("KNOWN-FINDING: property=%s %s%s %s", kf.Property, ob.Name, via, kf.What))
 			nOb-- // not part of the claim
 			continue
 		}
